@@ -99,13 +99,16 @@ def run_check(pid, tier, replay=None):
         runs.append({"universe": "1 top-level field, all kinds / tag styles / nest kinds / alias patterns", "distinct_states": res.distinct, "cases": len(cs), "exhaustive": True})
         cases += cs
         # (b) two top-level fields (leaf or struct with one leaf) over seeded kinds / styles / nest kinds
-        kinds = rng.sample(ALL_KINDS, 3 if quick else 5)
+        kinds = rng.sample(ALL_KINDS, 3 if quick else 10)
         if not set(kinds) & set(NARROW):
             kinds[0] = rng.choice(NARROW)       # an out-of-range literal next to other supplied leaves is always in the sample
         styles = ["none"] + rng.sample(["snake", "camel", "kebab", "upper"], 2)
         nests = rng.sample(["struct", "pstruct", "emb"], 2)
         d = scratch.sub("srcs")
-        write_model(d, kinds, styles, nests, 2, 1, True, True, sample=3 if quick else 4)
+        if not quick:
+            styles, nests = ["none", "snake", "camel", "kebab", "upper"], ["struct", "pstruct", "emb"]
+        # measured (thorough): ~17M states in under 3 minutes, one done state in 150 is emitted (~55k cases)
+        write_model(d, kinds, styles, nests, 2, 1, True, True, sample=3 if quick else 150)
         res2 = C.run_tlc(d, "MCSources", "S.cfg", timeout=3000, extra=["-seed", str(seed)])
         if not res2.ok:
             raise C.Inconclusive("Sources.tla violates its own properties (%s): specification alarm\n%s" % (res2.violated, res2.out[-1500:]))
@@ -113,17 +116,27 @@ def run_check(pid, tier, replay=None):
         states += res2.distinct
         trans += res2.generated
         runs.append({"universe": "2 top-level fields over kinds %s, styles %s, nests %s" % (kinds, styles, nests), "distinct_states": res2.distinct,
-                     "cases": len(cs2), "emitted_one_in": 3 if quick else 4})
+                     "cases": len(cs2), "emitted_one_in": 3 if quick else 150})
         cases += cs2
         # (c) one struct with two leaves
         d = scratch.sub("srcn")
-        write_model(d, kinds, ["none", "snake"], ["struct", "pstruct", "emb"], 1, 3, True, False)
+        write_model(d, kinds[:8], ["none", "snake"], ["struct", "pstruct", "emb"], 1, 3, True, False)
         res3 = C.run_tlc(d, "MCSources", "S.cfg", timeout=3000)
         cs3 = [c for c in cases_of(res3.out) if c["fields"][0]["nest"]]
         states += res3.distinct
         trans += res3.generated
         runs.append({"universe": "one nested struct with two leaves over kinds %s" % kinds, "distinct_states": res3.distinct, "cases": len(cs3), "exhaustive": True})
         cases += cs3
+        if not quick:
+            # (e) three top-level fields (leaf or struct with one leaf), no aliases, four kinds: ~640k states, one case in ten
+            d = scratch.sub("srce")
+            write_model(d, kinds[:4], ["none", "snake"], ["struct"], 3, 1, False, False, sample=10)
+            res5 = C.run_tlc(d, "MCSources", "S.cfg", timeout=3000, extra=["-seed", str(seed)])
+            cs5 = cases_of(res5.out)
+            states += res5.distinct
+            trans += res5.generated
+            runs.append({"universe": "3 top-level fields over kinds %s" % kinds[:4], "distinct_states": res5.distinct, "cases": len(cs5), "emitted_one_in": 10})
+            cases += cs5
         if pid == "C11":
             # (d) one-letter field names on nested paths (N.M): the documented variable is N_M
             d = scratch.sub("srcd")
